@@ -15,4 +15,29 @@ for i, l in enumerate(lines):
         cur = h.group(1)
     if l.startswith('*Rules run (as built):*') and cur:
         lines[i] = '*Rules run (as built):* ' + ', '.join(m[cur]) + '.'
-open('/verif/DESIGN.md', 'w').write('\n'.join(lines))
+# the "Third round" paragraph of each property section mirrors the explanation the checker writes into the evidence
+import json, os
+out = []
+cur = None
+skip = False
+for l in lines:
+    h = re.match(r'^#+\s*(C\d\d)\b', l)
+    if h:
+        cur = h.group(1)
+    if l.startswith('*Third round:*'):
+        skip = True
+        continue
+    if skip:
+        if l.strip() == '':
+            skip = False
+        continue
+    out.append(l)
+    if l.startswith('*Rules run (as built):*') and cur:
+        ev = '/verif/evidence/%s.json' % cur
+        if os.path.exists(ev):
+            ex = json.load(open(ev)).get('coverage', {}).get('explanation', '')
+            m3 = re.search(r'Third round: (.*?) Not decided:', ex)
+            if m3:
+                out.append('')
+                out.append('*Third round:* ' + m3.group(1))
+open('/verif/DESIGN.md', 'w').write('\n'.join(out))
